@@ -11,6 +11,7 @@ T13 struct literals / patterns: a duplicated field is reported and the search fo
 T14 exhaustiveness: the sub-patterns of a struct pattern are aligned with the definition's fields by name (fields behind `..` are wildcards)
 T15 number / range patterns are compared with min() / max() of the matched number type on every accepting path
 T16 type definitions: duplicated struct fields are rejected; self-containing struct / enum definitions are rejected before any function body is checked
+T17 const definitions: the declared type is resolved before it is registered; a value provided by a party is registered with one type
 T12 a block takes the type of its last statement only (assigned on the `index == len - 1` edge, or afresh for every statement)
 T11 max / min / + / - const expressions are only accepted for consts whose declared type is examined (numeric)
 T9  const expressions are checked against the consts defined before them (a local map filled in source order), never against the
@@ -1200,5 +1201,51 @@ def rule_t16(ctx):
     return res
 
 
+def rule_t17(ctx):
+    """Const definitions: the declared type is resolved (a struct / enum name is still an unresolved name after parsing, and the
+    checker and compiler panic on unresolved types), and a value provided by a party is registered with one type only (the
+    compiler encodes the provided literal once per value; with two declared types it unwraps a missing / mistyped entry)."""
+    res = RuleResult("T17", "const definitions: declared types are resolved; an external value has one type")
+    f = prog_tc(ctx)
+    body = ctx.body(f["id"])
+    # (a) what goes into const_types comes out of as_concrete_type
+    n = 0
+    for b, t in body.calls():
+        if mir.last_seg(mir.callee(t) or "") != "insert" or len(t["args"]) != 3 or t["args"][2]["k"] not in ("copy", "move"):
+            continue
+        if t["args"][2]["place"]["ty"] != "ast::Type":
+            continue
+        n += 1
+        resolved = {tt["dest"]["l"] for _, tt in body.calls() if mir.last_seg(mir.callee(tt) or "") == "as_concrete_type"}
+        if t["args"][2]["place"]["l"] in mir.forward_taint(body, resolved):
+            res.ok({"site": "const type registered at line %d" % t["sp"][1], "verdict": "result of as_concrete_type"})
+        else:
+            res.bad(Finding("T17", f["id"], "declared const type registered unresolved",
+                            "the type of a const is entered into the table of const types as it was parsed: `const C: E = PARTY_0::X;` (E an enum) leaves an unresolved type name, "
+                            "and `match C { .. }` reaches unreachable!() in the checker", t["sp"]))
+    if n != 1 and not res.findings:
+        raise AnchorMissing("T17: expected one registration of a const type (HashMap<String, Type>::insert), found %d" % n)
+    # (b) external values
+    cands = [g for g in ctx.fns.values() if g.get("mir") and g["id"].endswith("::check_const_expr")]
+    if len(cands) != 1:
+        raise AnchorMissing("T17: check_const_expr not found")
+    cb = ctx.body(cands[0]["id"])
+    succ = cb.pruned_succ({(("arg", 1), ("0",)): "ExternalValue"})
+    region = set(cb.reachable([0], succ=succ))
+    ins = [b for b in region if cb.term(b) and cb.term(b)["k"] == "call" and mir.last_seg(mir.callee(cb.term(b)) or "") == "insert"]
+    if not ins:
+        raise AnchorMissing("T17: the ExternalValue arm of check_const_expr registers nothing")
+    cmps = [b for b in region if cb.term(b) and cb.term(b)["k"] == "call" and cb.term(b)["func"].get("declared") in ("std::cmp::PartialEq::eq", "std::cmp::PartialEq::ne")
+            and "ast::Type" in "".join(cb.term(b)["func"].get("substs") or [])]
+    errs = [b for b in region for st in cb.blocks[b]["stmts"] if st["k"] == "assign" and st["rv"]["k"] == "aggregate" and st["rv"].get("adt") == "check::TypeErrorEnum"]
+    if cmps and errs and all(any(cb.dominates(c, e) for c in cmps) for e in errs) and not any(cb.path(e, ins, succ=succ) for e in errs):
+        res.ok({"site": "ExternalValue", "verdict": "the registered type of the value is compared with the declared type; a difference is an error and registers nothing"})
+    else:
+        res.bad(Finding("T17", cands[0]["id"], "external value registered with whatever type was seen last",
+                        "`const A: bool = PARTY_0::X; const B: u8 = PARTY_0::X;` is accepted: the table of external values keeps one type per value, "
+                        "and compile_with_constants unwraps the other", cb.term(ins[0])["sp"]))
+    return res
+
+
 def run(ctx):
-    return ctx.run_rules([rule_t1, rule_t2, rule_t3, rule_t4, rule_t5, rule_t6, rule_t7, rule_t8, rule_t9, rule_t10, rule_t11, rule_t12, rule_t13, rule_t14, rule_t15, rule_t16])
+    return ctx.run_rules([rule_t1, rule_t2, rule_t3, rule_t4, rule_t5, rule_t6, rule_t7, rule_t8, rule_t9, rule_t10, rule_t11, rule_t12, rule_t13, rule_t14, rule_t15, rule_t16, rule_t17])
